@@ -474,9 +474,16 @@ class VirtualFileSystem(FileSystem[str]):
     def walk_folder(self, folder: str = '') -> Iterator[File[Self]]:
         """Return all files that are 'subfolders' of the provided folder."""
         folder = self._clean_path(folder)
+        if folder == '.':
+            # normpath('') produces '.', the root contains every file.
+            folder = ''
+        else:
+            # Only match whole folder names: "mat" is not a parent of "materials/x".
+            folder += '/'
 
-        for filename, data in self._mapping.values():
-            if filename.startswith(folder):
+        # The keys were cleaned the same way, the stored filename keeps the original case.
+        for key, (filename, data) in self._mapping.items():
+            if key.startswith(folder):
                 yield File(self, filename, filename)
 
     def _file_exists(self, name: str) -> bool:
